@@ -24,7 +24,10 @@ def run(tier):
     hs += empties(rng, n // 3)
     m = run_histories(chk, hs, {"C10"}, label="c10")
     m2 = encoder_traces(chk, tier, relevant={"C10", "C06,C10"})
-    chk.distinct = m["execs"] + m2["execs"]
+    hs3 = [histgen.gen_history(rng, nops=rng.choice([10, 30]), comp="none", sizes=[1, 3, 7, 10000], stats_p=0.4)
+           for _ in range(30 if tier == "quick" else 400)]
+    m3 = run_histories(chk, hs3, {"C10"}, label="c10s", sample=False, defs=("CDNS_VERIF_ENC_BUFFER=12",))
+    chk.distinct = m["execs"] + m2["execs"] + m3["execs"]
     return chk.finish()
 
 
